@@ -338,6 +338,7 @@ pub fn case(root: &str, g: &DepGraph, facts: Order, renumber: Renumber, priority
         dep_graph: Some(g.clone()),
         variant_shape: None,
         type_expr: None,
+        strip_bytes: None,
     }
 }
 
